@@ -175,12 +175,13 @@ def reference(stream, with_err):
     return dict(handler=tag, text=text, reply='ACK-%s[%s]' % (tag, ctl_id(text)), strict=True)
 
 
-def observe(chunks, after, with_err):
+def observe(chunks, after, with_err, send_cap=FakeSocket.SEND_CAP):
     """Run the real handler over a scripted connection; return the public observations."""
     del LOG[:]
     srv = server(with_err)
     del srv.errors[:]
     fs = FakeSocket(chunks, after=after)
+    fs.SEND_CAP = send_cap
     srv.process_request_thread(fs, ('127.0.0.1', 1))
     return dict(log=list(LOG), sent=bytes(fs.sent), closed=fs.closed, errors=[type(e).__name__ for e in srv.errors],
                 reads=fs.reads, delivered=bytes(fs.delivered))
@@ -415,7 +416,9 @@ def conformance_unit(cases, res):
         frame = frames()[name]
         stream = frame[:b]
         chunks = cut(stream, cuts) if b else []
-        fake = observe(chunks, after, with_err)
+        # the loopback takes a short reply in one write: the comparison is made with a scripted socket that does the same (the
+        # short-write answer of the model is an environment answer the loopback cannot produce)
+        fake = observe(chunks, after, with_err, send_cap=None)
         real = tcp_case(name, b, cuts, after, with_err)
         res.evaluations += 2
         res.transitions += 2
